@@ -4,6 +4,7 @@ import Hive.Proofs.TypedConc
 import Hive.Proofs.TypedCounter
 import Hive.Proofs.TypedGate
 import Hive.Gen.C06_Skel
+import Hive.Proofs.TypedCode
 /-!
 # C06 — TypedValue / TypedStore are transparent, error-faithful typed views
 
@@ -499,6 +500,51 @@ theorem C06_skeleton_store_iterate : skel_TypedStore_Iterate =
      "}if", "return"] := by decide
 
 end Skeleton
+
+/-! ## Regenerated model: the method bodies of `kvstore/typedvalue.go`, translated on every run
+
+`harness/c06/xlate` turns the bodies of `TypedValue.Get/Has/Compute/Set/Delete/cachedValue` of the working tree
+into terms of the statement language of `Hive/Model/TypedCode.lean` (`Hive/Gen/C06_Code.lean`); `Code.execOp` runs
+them under that language's semantics (statement order, `if`/`else` chains, early returns, short-circuit conditions
+with nil dereferences as panics, which variable every call result lands in and which variable every condition
+tests, error wrapping and `ierrors.Is`, store calls counted by position for the fault vector). -/
+section Code
+open Hive.Typed.Code Hive.Gen.C06Code
+
+/-- **The translated code is the model.**  In every state (reachable or not), for every value type, codec,
+operation, compute function and fault vector, running the regenerated method body gives exactly the result, the
+resulting raw bytes, both cache fields and the call trace of the hand-written `step` — hence every `C06_*`
+theorem above is a theorem about the code as translated (`runCode` = `run` for histories).  Also: the translated
+`cachedValue` is what the language's `cached` statement (used by `Compute`) does. -/
+theorem C06_code_refines_model (C : Codec V) (s : St V) :
+    (∀ op F, execOp prog C s op F = step C s op F) ∧
+    (∀ h, runCode prog C s h = run C s h) ∧
+    (∀ f F (m : M V), exec C f F prog.cachedValue m = .done m [.v (m.st.cv.getD (m.env.v 1)), .b m.st.cv.isSome]) :=
+  ⟨execOp_eq_step C s, runCode_eq_run C s, fun f F m => code_cachedValue_eq C f F m⟩
+
+/-- The headline clauses restated for the translated code: from a fresh object, after any history run by the
+translated bodies, the cache equals the store; and any failed call of the next translated operation is reported
+with its own error and leaves raw bytes and cache untouched. -/
+theorem C06_code_coherent_failure_atomic (C : Codec V) (hrt : C.RoundTrip) (raw : Option Bytes) (h : List (Op V × Faults))
+    (op : Op V) (F : Faults) :
+    let s := (runCode prog C (fresh raw) h).1
+    Coherent C s ∧
+    (∀ e ∈ (execOp prog C s op F).tr, e.res = .fail →
+      (execOp prog C s op F).st = s ∧ (execOp prog C s op F).out = .err (errOf e.call)) ∧
+    (∀ k, (execOp prog C s op F).out = .err k → ∃ e ∈ (execOp prog C s op F).tr, e.res = .fail ∧ errOf e.call = k) := by
+  intro s
+  have hs : s = final C (fresh raw) h := by
+    show (runCode prog C (fresh raw) h).1 = _
+    rw [runCode_eq_run, run_fst]
+  rw [execOp_eq_step]
+  exact ⟨hs ▸ (C06_cache_coherent C hrt raw h).1, (C06_failure_atomic C s op F).1, (C06_failure_atomic C s op F).2.1⟩
+
+/-- Non-vacuity: the translated `Compute` on the concrete codec, a failing encoder: reported, nothing stored. -/
+example : (execOp prog codec64 (fresh none) (.compute fun _ _ => .ok 5) { enc := true }).out = .err .enc ∧
+    (execOp prog codec64 (fresh none) (.compute fun _ _ => .ok 5) { enc := true }).st = fresh none := by
+  rw [execOp_eq_step]; decide
+
+end Code
 
 /-! ## Non-vacuity: the hypotheses are satisfiable by concrete, non-trivial instances -/
 
